@@ -10,6 +10,20 @@
                 (evaluated symbolically and in f64 arithmetic by the Lean side).
 
 Run on every check; anything it cannot parse is an error (never skipped).  Returns a summary dict.
+
+Robustness (round 3) — the translator is part of the trusted tie, so it refuses or flags every change of SHAPE:
+  hard errors (TranslateError, nothing is generated):
+    * conversion.rs has a top-level item other than the three known ones (a second table, a helper fn with a
+      `match`, a shadowing `const PI`), the table static is renamed / retyped / duplicated, `PI` is not
+      `std::f64::consts::PI`, a statement of the initialiser is not one of the four known forms or is out of
+      order, a constant is not built from decimal literals, PI, `*`, `/` and parentheses;
+    * the table is used anywhere else than `UNIT_CONVERSION_TABLE[to][from]` in `Number::convert(self, from, to)`
+      and `UNIT_CONVERSION_TABLE.get(to)?.get(from)` in `conversion_factor(from, to)` (index order is part of
+      the meaning of the generated table).
+  soft errors (summary["shape_errors"], the Lean text IS generated so that the theorems see the code as it is):
+    * the set of payload-free units, the set of table rows or the keys of a row differ from the pinned shape.
+  `self_test()` mutates copies of the sources in memory and confirms that each mutation changes the generated
+  text or is refused.
 """
 import os
 import re
@@ -215,51 +229,182 @@ def parse_expr(text):
     return e
 
 
+EXPECTED_ITEMS = [("static", "UNIT_CONVERSION_TABLE"), ("static", "KNOWN_COMPATIBILITIES"),
+                  ("fn", "known_compatibilities_by_unit")]
+TABLE_HEADER = "pub(crate) static UNIT_CONVERSION_TABLE: Lazy<HashMap<Unit, HashMap<Unit, f64>>> = Lazy::new(|| {"
+
+
+def depth0(src):
+    """the text of `src` outside every {...} (...) [...]"""
+    out, depth = [], 0
+    for ch in src:
+        if ch in "{([":
+            depth += 1
+        elif ch in "})]":
+            depth -= 1
+            if depth < 0:
+                raise TranslateError("unbalanced brackets")
+        elif depth == 0:
+            out.append(ch)
+    if depth != 0:
+        raise TranslateError("unbalanced brackets")
+    return "".join(out)
+
+
+def check_conversion_file_shape(src):
+    """conversion.rs holds exactly one table, `PI` is the std constant, nothing else can define factors."""
+    items = re.findall(r"\b(static|const|fn|macro_rules|mod|impl|struct|enum|type|trait|extern)\b\s*!?\s*(\w+)", depth0(src))
+    if items != EXPECTED_ITEMS:
+        raise TranslateError(f"conversion.rs: top-level items changed shape: expected {EXPECTED_ITEMS}, found {items}")
+    if len(re.findall(r"\bUNIT_CONVERSION_TABLE\b", src)) != 1:
+        raise TranslateError("conversion.rs: UNIT_CONVERSION_TABLE must be mentioned exactly once (its definition)")
+    if " ".join(TABLE_HEADER.split()) not in " ".join(src.split()):
+        raise TranslateError("conversion.rs: the header of UNIT_CONVERSION_TABLE changed (name, type or initialiser form)")
+    uses = re.findall(r"\buse\b[^;]*;", src, flags=re.S)
+    if not any(re.search(r"\bf64::consts::PI\b", u) for u in uses):
+        raise TranslateError("conversion.rs: PI is not imported from std::f64::consts")
+    rest = src
+    for u in uses:
+        rest = rest.replace(u, "")
+    if re.search(r"\b(let|const|static)\s+(mut\s+)?PI\b", rest) or re.search(r"\bas\s+PI\b", src):
+        raise TranslateError("conversion.rs: PI is redefined")
+
+
 def parse_conversion(src):
     src = strip_comments(src)
+    check_conversion_file_shape(src)
     body = fn_body(src, r"UNIT_CONVERSION_TABLE\s*:[^=]*=\s*Lazy::new\(\|\|\s*\{")
     blocks, order = {}, []
     outer = {}
-    for stmt in body.split(";"):
-        s = " ".join(stmt.split())
+    stmts = [" ".join(st.split()) for st in body.split(";")]
+    if not stmts or stmts[-1] != "m":
+        raise TranslateError("UNIT_CONVERSION_TABLE: the initialiser does not end with the expression `m`")
+    phase = 0                       # 0: inner maps, 1: after `let mut m`
+    for s in stmts[:-1]:
         if not s:
-            continue
+            raise TranslateError("UNIT_CONVERSION_TABLE: empty statement")
         m = re.fullmatch(r"let mut (\w+) = HashMap::new\(\)", s)
         if m:
-            if m.group(1) in blocks or m.group(1) == "m":
-                if m.group(1) != "m":
-                    raise TranslateError("duplicate map " + m.group(1))
-            if m.group(1) != "m":
-                blocks[m.group(1)] = []
+            if m.group(1) == "m":
+                if phase != 0:
+                    raise TranslateError("UNIT_CONVERSION_TABLE: `let mut m` twice")
+                phase = 1
+                continue
+            if phase != 0:
+                raise TranslateError(f"UNIT_CONVERSION_TABLE: map {m.group(1)} declared after the outer map")
+            if m.group(1) in blocks:
+                raise TranslateError("duplicate map " + m.group(1))
+            blocks[m.group(1)] = []
             continue
         m = re.fullmatch(r"(\w+)\.insert\(Unit::(\w+), (.+)\)", s)
         if m:
             var, key, val = m.groups()
             if var == "m":
+                if phase != 1:
+                    raise TranslateError("m.insert before `let mut m`")
                 if val not in blocks:
                     raise TranslateError(f"m.insert of unknown map {val}")
                 if key in outer:
                     raise TranslateError(f"m.insert: duplicate key {key}")
+                if val in outer.values():
+                    raise TranslateError(f"m.insert: map {val} inserted twice")
                 outer[key] = val
                 order.append(key)
             else:
+                if phase != 0:
+                    raise TranslateError(f"insert into {var} after the outer map was started")
                 if var not in blocks:
                     raise TranslateError(f"insert into undeclared map {var}")
                 if key in [e[0] for e in blocks[var]]:
                     raise TranslateError(f"{var}: duplicate key {key}")
                 blocks[var].append((key, parse_expr(val), val))
             continue
-        if s == "m":
-            continue
         raise TranslateError(f"UNIT_CONVERSION_TABLE: cannot parse statement {s!r}")
+    if phase != 1:
+        raise TranslateError("UNIT_CONVERSION_TABLE: no outer map `m`")
     used = set(outer.values())
     if used != set(blocks):
         raise TranslateError(f"maps never inserted into the table: {set(blocks) - used}")
     entries = []
     for to in order:
+        if not blocks[outer[to]]:
+            raise TranslateError(f"row {to} is empty")
         for frm, tree, text in blocks[outer[to]]:
             entries.append((to, frm, tree, text))
     return entries
+
+
+# ----------------------------------------------------------------------------------------------
+# how the table is indexed by the code that uses it
+# ----------------------------------------------------------------------------------------------
+USE_SITES = {
+    "value/number.rs": (r"pub fn convert\(self, from: &Unit, to: &Unit\) -> Self \{",
+                        "Number(self.0 * UNIT_CONVERSION_TABLE[to][from])"),
+    "value/sass_number.rs": (r"pub\(crate\) fn conversion_factor\(from: &Unit, to: &Unit\) -> Option<f64> \{",
+                             "UNIT_CONVERSION_TABLE.get(to)?.get(from).copied()"),
+}
+
+
+def check_use_sites(files):
+    """files: {path relative to crates/compiler/src: text}.  Every mention of the table outside conversion.rs is a
+    `use` or exactly one of the two known expressions inside the two known functions."""
+    seen = set()
+    for rel, text in sorted(files.items()):
+        if rel == "unit/conversion.rs" or "UNIT_CONVERSION_TABLE" not in text:
+            continue
+        src = strip_comments(text)
+        src = re.sub(r"\buse\b[^;]*;", "", src, flags=re.S)
+        n = len(re.findall(r"\bUNIT_CONVERSION_TABLE\b", src))
+        if n == 0:
+            continue
+        if rel not in USE_SITES:
+            raise TranslateError(f"UNIT_CONVERSION_TABLE is used in {rel}: an access the model does not know")
+        header, expr = USE_SITES[rel]
+        fb = " ".join(fn_body(src, header).split())
+        if n != 1 or expr not in fb:
+            raise TranslateError(f"{rel}: the access to UNIT_CONVERSION_TABLE changed (expected only `{expr}`)")
+        seen.add(rel)
+    if seen != set(USE_SITES):
+        raise TranslateError(f"UNIT_CONVERSION_TABLE is no longer used in {sorted(set(USE_SITES) - seen)}")
+
+
+def read_use_site_files(repo):
+    root = os.path.join(repo, "crates/compiler/src")
+    out = {}
+    for d, _, names in os.walk(root):
+        for n in names:
+            if n.endswith(".rs"):
+                p = os.path.join(d, n)
+                out[os.path.relpath(p, root)] = open(p, encoding="utf-8", errors="replace").read()
+    return out
+
+
+# ----------------------------------------------------------------------------------------------
+# the pinned shape: which units exist and which (to, from) pairs have an entry
+# ----------------------------------------------------------------------------------------------
+SHAPE_GROUPS = [["In", "Cm", "Pc", "Mm", "Q", "Pt", "Px"], ["Deg", "Grad", "Rad", "Turn"], ["S", "Ms"], ["Hz", "Khz"],
+                ["Dpi", "Dpcm", "Dppx"]]
+SHAPE_UNITS = ["Px", "Mm", "In", "Cm", "Q", "Pt", "Pc", "Em", "Rem", "Lh", "Ex", "Ch", "Cap", "Ic", "Rlh", "Vw", "Vh", "Vmin",
+               "Vmax", "Vi", "Vb", "Deg", "Grad", "Rad", "Turn", "S", "Ms", "Hz", "Khz", "Dpi", "Dpcm", "Dppx", "Fr", "Percent"]
+SHAPE_KINDS = ["Absolute", "FontRelative", "ViewportRelative", "Angle", "Time", "Frequency", "Resolution", "Other", "None"]
+
+
+def shape_errors(mod, entries):
+    errs = []
+    if sorted(mod["known"]) != sorted(SHAPE_UNITS):
+        errs.append(f"enum Unit changed: added {sorted(set(mod['known']) - set(SHAPE_UNITS))}, "
+                    f"removed {sorted(set(SHAPE_UNITS) - set(mod['known']))}")
+    if mod["kinds"] != SHAPE_KINDS:
+        errs.append(f"enum UnitKind changed: {mod['kinds']}")
+    rows = {}
+    for to, frm, _, _ in entries:
+        rows.setdefault(to, set()).add(frm)
+    want = {u: set(g) for g in SHAPE_GROUPS for u in g}
+    for to in sorted(set(rows) | set(want)):
+        if rows.get(to, set()) != want.get(to, set()):
+            errs.append(f"row {to}: keys added {sorted(rows.get(to, set()) - want.get(to, set()))}, "
+                        f"removed {sorted(want.get(to, set()) - rows.get(to, set()))}")
+    return errs
 
 
 def lean_expr(t):
@@ -270,9 +415,10 @@ def lean_expr(t):
     return f"(.{t[0]} {lean_expr(t[1])} {lean_expr(t[2])})"
 
 
-def generate(repo=REPO, out=OUT):
-    mod = parse_mod(open(os.path.join(repo, "crates/compiler/src/unit/mod.rs")).read())
-    entries = parse_conversion(open(os.path.join(repo, "crates/compiler/src/unit/conversion.rs")).read())
+def render(mod_src, conv_src):
+    """pure: the two Rust texts -> (UnitKinds.lean text, UnitTable.lean text, summary)"""
+    mod = parse_mod(mod_src)
+    entries = parse_conversion(conv_src)
     known = mod["known"]
     for to, frm, _, _ in entries:
         if to not in known or frm not in known:
@@ -318,18 +464,126 @@ def generate(repo=REPO, out=OUT):
         b.append("  | _ => []")
     b.append("")
     b.append("end Grass.Generated")
+    summary = {"units": len(known), "kinds": len(mod["kinds"]), "entries": len(entries),
+               "names": mod["names"], "known": known, "kind_of": mod["kind_of"], "shape_errors": shape_errors(mod, entries)}
+    return "\n".join(a) + "\n", "\n".join(b) + "\n", summary
+
+
+def generate(repo=REPO, out=OUT):
+    mod_src = open(os.path.join(repo, "crates/compiler/src/unit/mod.rs")).read()
+    conv_src = open(os.path.join(repo, "crates/compiler/src/unit/conversion.rs")).read()
+    check_use_sites(read_use_site_files(repo))
+    kinds_text, table_text, summary = render(mod_src, conv_src)
     os.makedirs(out, exist_ok=True)
     changed = False
-    for name, lines in (("UnitKinds.lean", a), ("UnitTable.lean", b)):
-        text = "\n".join(lines) + "\n"
+    for name, text in (("UnitKinds.lean", kinds_text), ("UnitTable.lean", table_text)):
         path = os.path.join(out, name)
         old = open(path).read() if os.path.exists(path) else None
         if old != text:
             with open(path, "w") as f:
                 f.write(text)
             changed = True
-    return {"units": len(known), "kinds": len(mod["kinds"]), "entries": len(entries), "changed": changed,
-            "names": mod["names"], "known": known, "kind_of": mod["kind_of"]}
+    summary["changed"] = changed
+    return summary
+
+
+# ----------------------------------------------------------------------------------------------
+# self-test: mutate copies of the sources in memory
+# ----------------------------------------------------------------------------------------------
+
+def _sub1(text, old, new):
+    if text.count(old) != 1:
+        raise TranslateError(f"self-test: mutation site {old!r} occurs {text.count(old)} times")
+    return text.replace(old, new)
+
+
+def self_test(repo=REPO):
+    """-> {mutation: outcome}; outcome is 'changed' (generated text differs, parse ok), 'changed+shape' (differs and a
+    shape error is flagged), 'rejected' (TranslateError).  Raises TranslateError when a mutation goes unnoticed or
+    is noticed in a weaker way than required."""
+    mod_src = open(os.path.join(repo, "crates/compiler/src/unit/mod.rs")).read()
+    conv_src = open(os.path.join(repo, "crates/compiler/src/unit/conversion.rs")).read()
+    files = read_use_site_files(repo)
+    base = render(mod_src, conv_src)
+    if render(mod_src, conv_src)[:2] != base[:2]:
+        raise TranslateError("self-test: translator is not deterministic")
+    A = "from_in.insert(Unit::Cm, 1.0 / 2.54);"
+    B = "from_in.insert(Unit::Pc, 1.0 / 6.0);"
+    conv_muts = {   # name: (mutated conversion.rs, required outcome)
+        "constant-changed": (_sub1(conv_src, A, "from_in.insert(Unit::Cm, 1.0 / 2.55);"), "changed"),
+        "constant-last-digit": (_sub1(conv_src, "from_q.insert(Unit::Px, 101.6 / 96.0);", "from_q.insert(Unit::Px, 101.7 / 96.0);"), "changed"),
+        "operator-changed": (_sub1(conv_src, "from_rad.insert(Unit::Turn, 2.0 * PI);", "from_rad.insert(Unit::Turn, 2.0 / PI);"), "changed"),
+        "row-entry-removed": (_sub1(conv_src, "from_cm.insert(Unit::Pc, 2.54 / 6.0);", ""), "changed+shape"),
+        "row-removed": (_sub1(re.sub(r"let mut from_ms = HashMap::new\(\);(\s*from_ms\.insert\([^;]*;)*", "", conv_src),
+                              "m.insert(Unit::Ms, from_ms);", ""), "changed+shape"),
+        "row-not-inserted": (_sub1(conv_src, "m.insert(Unit::Ms, from_ms);", ""), "rejected"),
+        "values-swapped": (_sub1(_sub1(conv_src, A, "from_in.insert(Unit::Cm, 1.0 / 6.0);"), B,
+                                 "from_in.insert(Unit::Pc, 1.0 / 2.54);"), "changed"),
+        "lines-swapped": (_sub1(conv_src, A + conv_src[conv_src.index(A) + len(A):conv_src.index(B)] + B,
+                                B + conv_src[conv_src.index(A) + len(A):conv_src.index(B)] + A), "changed"),
+        "maps-swapped": (_sub1(_sub1(conv_src, "m.insert(Unit::In, from_in);", "m.insert(Unit::In, from_cm_);"),
+                               "m.insert(Unit::Cm, from_cm);", "m.insert(Unit::Cm, from_in);").replace("from_cm_", "from_cm"), "changed"),
+        "entry-for-new-unit": (_sub1(conv_src, A, A + " from_in.insert(Unit::Em, 1.0);"), "changed+shape"),
+        "constant-renamed": (conv_src.replace("UNIT_CONVERSION_TABLE", "UNIT_CONVERSION_TABLE_V2"), "rejected"),
+        "second-table": (conv_src + "\npub(crate) static UNIT_CONVERSION_TABLE_EXTRA: Lazy<HashMap<Unit, f64>> = "
+                                    "Lazy::new(|| HashMap::new());\n", "rejected"),
+        "match-function": (conv_src + "\npub(crate) fn factor(to: &Unit, from: &Unit) -> f64 { match (to, from) { _ => 1.0 } }\n",
+                           "rejected"),
+        "match-in-constant": (_sub1(conv_src, A, "from_in.insert(Unit::Cm, match 1 { _ => 1.0 / 2.54 });"), "rejected"),
+        "statement-after-table": (_sub1(conv_src, "m.insert(Unit::In, from_in);",
+                                        "m.insert(Unit::In, from_in); m.get_mut(&Unit::In).unwrap().insert(Unit::Cm, 0.4);"), "rejected"),
+        "plus-in-constant": (_sub1(conv_src, A, "from_in.insert(Unit::Cm, 1.0 / 2.54 + 0.0);"), "rejected"),
+        "pi-shadowed": (_sub1(conv_src, "use once_cell::sync::Lazy;", "use once_cell::sync::Lazy;\nconst PI: f64 = 3.0;"), "rejected"),
+        "duplicate-key": (_sub1(conv_src, A, A + " from_in.insert(Unit::Cm, 1.0);"), "rejected"),
+    }
+    mod_muts = {
+        "unit-added": (_sub1(mod_src, "    Percent,\n", "    Percent,\n    Vq,\n"), "rejected"),
+        "unit-added-with-arms": (_sub1(_sub1(_sub1(_sub1(mod_src, "    Percent,\n", "    Percent,\n    Vq,\n"),
+                                 "Unit::Fr | Unit::Percent |", "Unit::Fr | Unit::Vq | Unit::Percent |"),
+                                 '"fr" => Unit::Fr,', '"fr" => Unit::Fr, "vq" => Unit::Vq,'),
+                                 'Unit::Fr => write!(f, "fr"),', 'Unit::Fr => write!(f, "fr"), Unit::Vq => write!(f, "vq"),'),
+                                 "changed+shape"),
+        "kind-changed": (_sub1(mod_src, "Unit::S | Unit::Ms => UnitKind::Time", "Unit::S | Unit::Ms => UnitKind::Frequency"), "changed"),
+        "canonical-changed": (_sub1(mod_src, "UnitKind::Absolute => Some(Unit::Px)", "UnitKind::Absolute => Some(Unit::In)"), "changed"),
+        "display-name-changed": (_sub1(_sub1(mod_src, 'Unit::Khz => write!(f, "kHz")', 'Unit::Khz => write!(f, "khz2")'),
+                                       '"khz" => Unit::Khz', '"khz2" => Unit::Khz'), "changed"),
+    }
+    out = {}
+
+    def judge(name, want, fn):
+        try:
+            r = fn()
+            got = "unchanged" if r[:2] == base[:2] else ("changed+shape" if r[2]["shape_errors"] else "changed")
+        except TranslateError:
+            got = "rejected"
+        out[name] = got
+        if got != want:
+            raise TranslateError(f"self-test: mutation {name!r} gave {got!r}, required {want!r}")
+
+    for name, (txt, want) in conv_muts.items():
+        judge(name, want, lambda: render(mod_src, txt))
+    for name, (txt, want) in mod_muts.items():
+        judge(name, want, lambda: render(txt, conv_src))
+    # use sites: index order swapped, a new access, an access removed
+    nr, sn = files["value/number.rs"], files["value/sass_number.rs"]
+    site_muts = {
+        "index-order-swapped": {**files, "value/number.rs": _sub1(nr, "UNIT_CONVERSION_TABLE[to][from]", "UNIT_CONVERSION_TABLE[from][to]")},
+        "get-order-swapped": {**files, "value/sass_number.rs": _sub1(sn, "UNIT_CONVERSION_TABLE.get(to)?.get(from)", "UNIT_CONVERSION_TABLE.get(from)?.get(to)")},
+        "parameters-swapped": {**files, "value/number.rs": _sub1(nr, "pub fn convert(self, from: &Unit, to: &Unit)", "pub fn convert(self, to: &Unit, from: &Unit)")},
+        "new-access": {**files, "value/mod.rs": files["value/mod.rs"] + "\nfn f() -> f64 { crate::unit::UNIT_CONVERSION_TABLE[&Unit::In][&Unit::Cm] }\n"},
+        "access-bypassed": {**files, "value/number.rs": _sub1(nr, "Number(self.0 * UNIT_CONVERSION_TABLE[to][from])", "Number(self.0 * other_table(to, from))")},
+    }
+    check_use_sites(files)
+    for name, fs in site_muts.items():
+        try:
+            check_use_sites(fs)
+            got = "unchanged"
+        except TranslateError:
+            got = "rejected"
+        out[name] = got
+        if got != "rejected":
+            raise TranslateError(f"self-test: use-site mutation {name!r} was not noticed")
+    return out
 
 
 if __name__ == "__main__":
@@ -338,4 +592,10 @@ if __name__ == "__main__":
     except TranslateError as e:
         print("translate_units: " + str(e), file=sys.stderr)
         sys.exit(2)
-    print({k: v for k, v in r.items() if k in ("units", "kinds", "entries", "changed")})
+    print({k: v for k, v in r.items() if k in ("units", "kinds", "entries", "changed", "shape_errors")})
+    if "--self-test" in sys.argv:
+        try:
+            print(self_test())
+        except TranslateError as e:
+            print("translate_units: " + str(e), file=sys.stderr)
+            sys.exit(3)
